@@ -124,6 +124,11 @@ class AFMWriter(ModelToText):
 
         return result
 
+    def _read_operand(self, node: Node) -> str:
+        """Operands that are operations themselves are parenthesized to keep the structure."""
+        result = self.recursive_constraint_read(node)
+        return " (" + result.strip() + ") " if node.is_op() else result
+
     def recursive_constraint_read(self, node: Node) -> str:
 
         data = node.data
@@ -131,10 +136,9 @@ class AFMWriter(ModelToText):
             data = AFMWriter.AFM_OPERATORS.get(data, data.value.upper())
 
         if node.left and node.right:
-            result = self.recursive_constraint_read(
-                node.left) + data + self.recursive_constraint_read(node.right)
+            result = self._read_operand(node.left) + data + self._read_operand(node.right)
         elif node.left and not node.right:  # unary operator: NOT
-            result = data + self.recursive_constraint_read(node.left)
+            result = data + self._read_operand(node.left)
         else:
             result = " " + data + " "
 
